@@ -613,6 +613,9 @@ def r3(ctx: Ctx) -> None:
              "DataFile, ADDED entries from the commit; the reader restores both", 4)
     f = ctx.fn("file_manager.FileManager.create_manifest_file")
     g = ctx.cfg(f)
+    if _r3_stamp_helper(ctx, f):
+        _r3_reader(ctx, f, 3)
+        return
     brs = [b for b in g.nodes if b.kind == "branch" and "ENTRY_STATUS_ADDED" in b.text and "status" in b.text]
     if not brs:
         _r3_rows(ctx, f)
@@ -652,6 +655,117 @@ def r3(ctx: Ctx) -> None:
                    ("stamped with the committing snapshot" if role == "ADDED" else "preserved from the DataFile (history is not falsified)"),
                    text=f"{role}:{key}")
     _r3_reader(ctx, f, len(entry_vars) + 1)
+
+
+def _r3_stamp_helper(ctx: Ctx, f: FunctionInfo) -> bool:
+    """Helper form of the stamping rule: the (status, snapshot id, sequence number) of an entry are the tuple a stamp helper
+    returns, computed per file in one comprehension over the ADDED files and one over the carried-over files.  The helper is
+    evaluated by scenario for either call (symbolic inputs: the commit's id / sequence number, the file's own): ADDED entries
+    must come out as (ADDED, commit id, commit sequence), carried-over ones as (EXISTING, the file's added_snapshot_id, the file's
+    sequence_number).  Returns False when the function is not of this form (the other forms of the rule decide)."""
+    from .common import concrete_eval, explore, UNKNOWN
+    nodes = walk_all(ctx, f)
+    recs = [d for d in nodes if isinstance(d, ast.Dict) and any(isinstance(k, ast.Constant) and k.value == "snapshot_id" for k in d.keys)]
+    var: Dict[str, str] = {}
+    if recs:
+        for k, v in zip(recs[0].keys, recs[0].values):
+            if isinstance(k, ast.Constant) and k.value in ("status", "snapshot_id", "sequence_number") and isinstance(v, ast.Name):
+                var[str(k.value)] = v.id
+    if len(var) != 3:
+        return False
+    loops = [x for x in ast.walk(f.node) if isinstance(x, ast.For) and isinstance(x.target, ast.Tuple) and len(x.target.elts) == 2
+             and isinstance(x.target.elts[1], ast.Tuple) and {e.id for e in x.target.elts[1].elts if isinstance(e, ast.Name)} == set(var.values())
+             and isinstance(x.iter, ast.Name)]
+    if len(loops) != 1:
+        return False
+    lp = loops[0]
+    order = [e.id for e in lp.target.elts[1].elts]  # type: ignore[union-attr]
+    pos = {k: order.index(v) for k, v in var.items()}
+    defs = [x.value for x in ast.walk(f.node) if isinstance(x, ast.Assign) and len(x.targets) == 1 and isinstance(x.targets[0], ast.Name)
+            and x.targets[0].id == lp.iter.id]  # type: ignore[union-attr]
+    if len(defs) != 1:
+        return False
+    comps: List[ast.ListComp] = []
+    stack = [defs[0]]
+    while stack:
+        e = stack.pop()
+        if isinstance(e, ast.BinOp) and isinstance(e.op, ast.Add):
+            stack += [e.left, e.right]
+        elif isinstance(e, ast.ListComp) and len(e.generators) == 1 and not e.generators[0].ifs and isinstance(e.elt, ast.Tuple) and len(e.elt.elts) == 2 \
+                and isinstance(e.elt.elts[1], ast.Call) and isinstance(e.generators[0].target, ast.Name) and isinstance(e.generators[0].iter, ast.Name):
+            comps.append(e)
+        else:
+            return False
+    if len(comps) != 2:
+        return False
+    consts = {}
+    for nm in ("ENTRY_STATUS_ADDED", "ENTRY_STATUS_EXISTING"):
+        c = f.module.consts.get(nm)
+        if not (isinstance(c, ast.Constant) and isinstance(c.value, int)):
+            return False
+        consts[nm] = c.value
+    fparams = {p.name for p in f.params}
+    sl = ctx.slicer(f)
+    host = next((n for n in ctx.cfg(f).nodes if n.kind == "stmt" and n.ast is not None and any(y is defs[0] for y in ast.walk(n.ast))), None)
+    if host is None:
+        return False
+    roles_seen = set()
+    for comp in comps:
+        it = comp.generators[0].iter.id  # type: ignore[union-attr]
+        role = "EXISTING" if "existing" in it else "ADDED"
+        roles_seen.add(role)
+        call = comp.elt.elts[1]  # type: ignore[union-attr]
+        try:
+            cal = ctx.prog.resolve_call(call, f)
+        except Exception:
+            return False
+        if cal is None or cal.kind != "func" or len(cal.funcs) != 1:
+            return False
+        t = cal.funcs[0]
+        tp = [p for p in t.params if not (t.cls is not None and not t.is_static and p is t.params[0])]
+        env: Dict[str, object] = {}
+        okb = len(call.args) <= len(tp) and not call.keywords
+        for i_, p_ in enumerate(tp):
+            a = call.args[i_] if i_ < len(call.args) else p_.default
+            if a is None:
+                okb = False
+                break
+            if isinstance(a, ast.Name) and a.id == comp.generators[0].target.id:  # type: ignore[union-attr]
+                env[p_.name + ".added_snapshot_id"] = "DF_SID"
+                env[p_.name + ".sequence_number"] = "DF_SEQ"
+            elif isinstance(a, ast.Name) and a.id in consts:
+                env[p_.name] = consts[a.id]
+            elif isinstance(a, ast.Constant):
+                env[p_.name] = a.value
+            else:
+                org = sl.origins(a, host.id)
+                ps = (org["params"] | ({a.id} if isinstance(a, ast.Name) and a.id in fparams else set())) & fparams
+                if any("snapshot" in p for p in ps) and not any("sequence" in p for p in ps):
+                    env[p_.name] = "SID"
+                elif any("sequence" in p for p in ps) and not any("snapshot" in p for p in ps):
+                    env[p_.name] = "SEQ"
+                else:
+                    okb = False
+        tg = ctx.cfg(t)
+        outs = set()
+        if okb:
+            for nid, store, _asm in explore(ctx, t, [tg.entry], env, stop=[n.id for n in tg.nodes if n.kind == "return"]):
+                n_ = tg.nodes[nid]
+                if n_.kind == "return" and n_.ast is not None and getattr(n_.ast, "value", None) is not None:
+                    scen = dict(env)
+                    scen.update({k: v for k, v in store.items() if isinstance(k, str)})
+                    outs.add(concrete_eval(ctx, t, n_.ast.value, scen, nid))  # type: ignore[union-attr]
+        want = [None, None, None]
+        want[pos["status"]] = consts["ENTRY_STATUS_ADDED"] if role == "ADDED" else consts["ENTRY_STATUS_EXISTING"]
+        want[pos["snapshot_id"]] = "SID" if role == "ADDED" else "DF_SID"
+        want[pos["sequence_number"]] = "SEQ" if role == "ADDED" else "DF_SEQ"
+        good = okb and outs == {tuple(want)}
+        for key in ("snapshot_id", "sequence_number"):
+            ctx.ob("C15.R3", f, f"{role}: per-entry {key} source", None, good,
+                   (f"scenario evaluation of {t.name}(...) for the {role} comprehension (nothing is run): returns {sorted(map(repr, outs))}, "
+                    f"expected {tuple(want)!r} - " + ("stamped with the committing snapshot" if role == "ADDED" else
+                                                      "preserved from the DataFile (history is not falsified)")), text=f"{role}:{key}")
+    return roles_seen == {"ADDED", "EXISTING"}
 
 
 def _r3_reader(ctx: Ctx, f: FunctionInfo, n_vars: int) -> None:
